@@ -69,19 +69,19 @@ type c12Handle struct {
 }
 
 type c12World struct {
-	packet  bool
-	addr    string
-	mgr     service.ListenerManager
-	handles []*c12Handle
-	mu      sync.Mutex
-	deliv   map[string][]*c12Call // token -> calls that received it
-	sent    []string
-	conns   map[string]net.Conn // stream: client side per token
-	accepted []net.Conn
-	client  *net.UDPConn
-	info    *kit.Info
+	packet        bool
+	addr          string
+	mgr           service.ListenerManager
+	handles       []*c12Handle
+	mu            sync.Mutex
+	deliv         map[string][]*c12Call // token -> calls that received it
+	sent          []string
+	conns         map[string]net.Conn // stream: client side per token
+	accepted      []net.Conn
+	client        *net.UDPConn
+	info          *kit.Info
 	inflightClose bool
-	voided  map[string]bool // undelivered when the last handle closed: nobody can receive them any more
+	voided        map[string]bool // undelivered when the last handle closed: nobody can receive them any more
 }
 
 const c12Bound = 2 * time.Second
